@@ -54,7 +54,7 @@ P('C08',
 P('C09',
   technique='property-based testing: generated interleaved/faulted XDS pair streams, differential against a reference reassembly model; event-history oracle for the service decoder',
   rule='part A: 1-6 XDS packets (class 0-6, type 0-0x7F, 0-40 payload bytes, right/wrong checksum, optional missing start) cut into segments and '
-       'interleaved with caption pairs / stuffing, resumed with continue codes, then 0-2 faults (dropped pair, parity flip, byte replaced); '
+       'interleaved with caption pairs / stuffing, resumed with continue codes, then 0-2 faults (dropped pair, parity flip, byte replaced), one case in six with vbi_xds_demux_reset() somewhere in the stream; '
        'part B: a station repeating/changing network name, call letters, title, length, rating through vbi_decode on line 284. '
        'Non-trivial: >= 2 packets interleaved, or payload >= 31 bytes, or an injected fault, or (B) a value change followed by its repeat; distinct = hash of consumed choices.',
   level_text='Generated-input search with an explicit oracle: delivered (class,type,length,bytes) sequence of vbi_xds_demux must equal the '
@@ -71,7 +71,7 @@ P('C10',
   technique='stateful model-based property testing: generated and exhaustively enumerated cache operation histories against a map model, structural audit of lists/counters after every step',
   rule='history of up to 150 operation records (put / get exact / get masked or wildcard / ref / unref / foreach / channel switch / hold and '
        'release network / page-type update / is_cached + hi_subno / tight memory limit) over 7 page numbers (two in one hash bucket, one hex) x '
-       '9 subcodes x 8 page kinds and sizes, on a decoder cache or a bare cache. Non-trivial: a page replaced while referenced, or a held page '
+       '9 subcodes x 8 page kinds and sizes, on a decoder cache or a bare cache; a page number may grow subpages and may turn single-version again (the store replaces every cached subpage). Non-trivial: a page replaced while referenced, or a held page '
        'released after its network was switched away, or an eviction, or a wildcard lookup among >= 2 versions; distinct = hash of consumed choices. '
        'Exhaustive sub-space: all histories up to depth 5 (quick) / 6 (thorough) over a 12-operation alphabet.',
   level_text='Generated-history search with an explicit oracle: after every operation lookups must equal a map model (content copy-equal, exact '
@@ -134,7 +134,7 @@ P('C06',
 
 P('C07',
   technique='property-based testing and fuzzing: harness-encoded PES/TS streams, metamorphic partition invariance (one call = pieces = coroutine), recovery oracle against the sent frames, ASan on exactly sized chunk buffers',
-  rule='stream = 3-12 frames (a frame in 1-3 PES packets) as PES or TS from the harness encoder with foreign stream ids / PIDs / adaptation-only / '
+  rule='stream = 3-12 frames (a frame in 1-3 PES packets) as PES or TS from the harness encoder with foreign stream ids / PIDs (every third foreign packet scrambled) / adaptation-only / '
        'null packets, cut into feed calls (single bytes .. 5000 bytes), optionally damaged (noise, removal, duplication, dropped TS packet, continuity, '
        'TEI, scrambling) or fully random. Non-trivial: a cut inside a PES/TS header, or a frame spanning >= 2 feed calls, or damage; '
        'distinct = hash of consumed choices.',
@@ -170,7 +170,7 @@ P('C15',
 P('C02',
   technique='property-based testing: generated Teletext networks and packet-level schedules through the real decoder; oracle = page assembly model + independent Level 1 display model (EN 300 706 sec. 12.2, Table 36), event log',
   rule='network = serial or parallel mode, 1-8 magazines x 1-4 pages (BCD 100-899, subpage 0 or 01-79, national option 0-6, C5/C6 sometimes), rows '
-       'from a grammar of text and interacting spacing attributes, optional X/27/0; schedule = packet-level interleaving of the magazines, permuted / '
+       'from a grammar of text and interacting spacing attributes, optional X/27/0 (four colour links and the index link are compared), row 24 included, half of the networks with the page number in the rolling header; schedule = packet-level interleaving of the magazines, permuted / '
        'omitted rows, time filling headers, 2-4 cycles with edited rows and toggled erase flag, 1-16 packets per frame. Non-trivial: (>= 2 magazines '
        'interleaved at packet level or a no-erase retransmission with a changed and an omitted row) and a row with interacting spacing attributes; '
        'distinct = hash of consumed choices.',
@@ -261,7 +261,7 @@ P('C05',
   technique='fuzzing / property-based testing under AddressSanitizer: generated sampling configurations incl. the smallest admissible line, image contents of every kind (nominal, shifted towards the search limit, truncated, noise, saturated, square waves), exactly sized heap blocks for image, line copies, output arrays and payload buffers',
   rule='configuration as in C04 (14 service combinations, rate from the admission limit to 36 MHz, 25 pixel formats, layouts), sampling window optionally cut to the smallest length the '
        'service check admits; content = nominal signals / shifted right per line (0 .. a third of the line) / truncated / noise / saturated / square wave at run-in period / noise bursts; '
-       'decoded as an image with max_lines <= lines, through the legacy decoder, and line by line through both single-line slicers. Non-trivial: a run-in was recognised in a non-nominal image; distinct = hash of consumed choices.',
+       'decoded as an image with max_lines <= lines (1-3 or 17-48 frames with one decoder), through the legacy decoder (also after vbi_raw_decoder_resize to a generated geometry), and line by line through both single-line slicers (also with an output buffer smaller than the payload); interlaced geometry with unequal field counts must be refused. Non-trivial: a run-in was recognised in a non-nominal image; distinct = hash of consumed choices.',
   level_text='Generated-input search; the oracle is AddressSanitizer on exactly sized heap blocks (one byte read behind the image or a line copy, one byte written behind the output array or a '
              'payload buffer aborts), plus return value <= max_lines and record ids within the granted services. Sampling only: absence of an out-of-bounds access is not established.',
   level_note='Trusted: ASan runtime; the service check of the library defines "admissible" line lengths (a configuration it rejects is not decoded). The analytic worst-case index cross-check of the design is not implemented.',
@@ -274,7 +274,7 @@ P('C01',
   states_termination=True,
   extra_c=['ttx_shim.c'],
   technique='fuzzing and property-based testing under ASan / UBSan: structure-aware generated operation lists (semi-valid Teletext, Caption, XDS, ITV trigger, VPS, WSS lines interleaved with every read side call), coverage guided libFuzzer stage over the same choice sequences; oracle = sanitizers, asserts, watchdog, allocation accounting',
-  rule='operation list of up to ~400 operations on one decoder: frames of 1-8 sliced lines built protocol-valid first (Teletext headers incl. MIP / MOT / BTT / trigger / hex / filler pages, rows, X/26 '
+  rule='operation list of up to ~400 operations on one decoder, among them structured Teletext neighbourhoods (Level 2.5 MOT + POP + DRCS + invoking page; POP object graphs whose objects invoke each other and themselves; TOP basic table + AIT / MPT pages + index page 900 + titles; EACEM trigger pages with well-formed trigger strings): frames of 1-8 sliced lines built protocol-valid first (Teletext headers incl. MIP / MOT / BTT / trigger / hex / filler pages, rows, X/26 '
        'with all triplet modes, X/27/0-5, X/28, M/29, 8/30, Hamming coded page bodies; Caption commands, XDS packets incl. odd and over-long, ITV trigger strings; VPS, WSS, unknown ids) then '
        'corrupted, time steps (regular, zero, jumps, backwards), and read side calls (fetch at every level, caption fetch, classify, title, links, cache queries, every export module, print, draw '
        'into exactly sized canvases, search, channel switch, handler changes, setters). Non-trivial: a page was cached or a caption character placed and a read side call succeeded on it; distinct = hash of consumed choices.',
@@ -291,7 +291,7 @@ P('C16',
   rule='page = Teletext page fetched at level 1 / 1.5 / 2.5 / 3.5 from a decoder fed with rows of the C02 grammar or a Level 2.5 neighbourhood (MOT, POP objects, DRCS), or a caption page; then 1-3 of: '
        '(A) an enumerated export module with a random option vector to vbi_export_alloc, vbi_export_mem (buffer sizes 0 / 1 / needed-1 / needed / needed+1 / random), vbi_export_stdio, vbi_export_file; '
        '(B) vbi_print_page_region in table mode (random region, UTF-8 / ISO-8859-1 / ASCII, random buffer size); (C) vbi_draw_vt_page_region / vbi_draw_cc_page_region of a random region into a guarded '
-       'canvas (random stride, RGBA32 / PAL8 / unsupported formats). Non-trivial: buffer size needed-1 or needed, or a region edge at an enlarged character, or a page with enhancement / DRCS data; distinct = hash of consumed choices.',
+       'canvas (random stride or the default -1, RGBA32 / PAL8 / unsupported formats). Non-trivial: buffer size needed-1 or needed, or a region edge at an enlarged character, or a page with enhancement / DRCS data; distinct = hash of consumed choices.',
   level_text='Generated-input search with explicit oracles: the four export targets must agree in success and bytes, vbi_export_mem must return the needed size for every buffer size and never write past an exactly '
              'sized heap buffer (ASan); vbi_print_page_region output converted back with iconv must equal the characters computed independently from pg->text (graphics, DRCS, covered cells and unrepresentable '
              'characters as spaces), return value <= size; region rendering must leave every guard pixel and, for unsupported formats, every pixel untouched and equal the full-page rendering for regions that cut no enlarged character. Sampling only.',
@@ -306,7 +306,7 @@ P('C18',
   technique='process-level property-based testing: generated schedules of 1-6 real proxy clients (connect / read / stall / service update / '
             'reconnect / kill) against zvbid on a deterministic simulated device (select and acquisition-thread variants, ASan+UBSan, thread '
             'variant also under TSan); reference frames recomputed from the frame number; adapter log for open/close/service union',
-  rule='case = device variant x frame period x queue depth x per-client scripts, from random.Random("seed:C18:i"). Non-trivial: at least two '
+  rule='case = device variant x frame period x queue depth x per-client scripts, from random.Random("seed:C18:i"); every eighth case is the split-message scenario (a conforming raw client whose message arrives in two pieces 2-3 frame periods apart while a library client changes its services: it must receive consecutive frames). Non-trivial: at least two '
        'connections of different clients overlap in time with different granted service sets and the case contains a stall or a service '
        'change; distinct = SHA-1 of the case file.',
   level_text='Generated-schedule search with explicit oracles on a multi-process system: per client strictly increasing exact timestamps, '
@@ -349,7 +349,7 @@ P('C20',
   technique='schedule fuzzing under ThreadSanitizer: generated operation streams and yield / sleep points for 2-4 threads on one decoder; oracle = TSan happens-before race detection, snapshot consistency against the sequential execution, one-consistent-service-set predicate, deadlock watchdog',
   rule='schedule = (part, per-thread operation streams, generated yields / microsleeps). Part A: decoding thread feeds 40-400 caption pairs one per vbi_decode call (pop-on, roll-up, paint-on, text; an event handler yields where the '
        'library has dropped its mutex), 1-2 threads call vbi_fetch_cc_page (channels 1-4, reset on / off) and in a third of the cases vbi_channel_switched. Part B: decoding thread calls vbi_raw_decode 20-140 times on a generated multi-service image, '
-       '1-2 threads call vbi_raw_decoder_add_services / _remove_services / _check_services. Non-trivial: a fetch or service change overlapped the decoding thread (sequence counters); distinct = hash of consumed choices.',
+       '1-2 threads call vbi_raw_decoder_add_services / _remove_services (also with 0, the service set query) / _check_services. Non-trivial: a fetch or service change overlapped the decoding thread (sequence counters); distinct = hash of consumed choices.',
   level_text='Sampled schedules on the real threads with explicit oracles: ThreadSanitizer must stay silent (a race on an executed path is reported without having to manifest), every caption page fetched concurrently must hash to one of the '
              'pages the sequential execution of the same stream produces for that channel (cases without channel switch), every raw decode result must consist of all transmitted lines of exactly the services that appear in it, '
              'and all threads must finish (watchdog 120 s, confirmed by replays). Interleavings are sampled by the OS scheduler plus generated yields, not enumerated.',
